@@ -21,6 +21,7 @@ FEATURESETS = {
     "nomemchr": ["--no-default-features"],
     "extras": ["--features", "extras"],
     "pretty": ["--features", "pretty"],
+    "dbg": ["--features", "dbg"],
 }
 
 
